@@ -97,6 +97,13 @@ def eq(a, b, what, tol=TOL):
         raise Violation(what, f"differs from the element-wise reference by {d:.2e}")
 
 
+def D(r):
+    """data of a result object; a wrong return type (e.g. the void result) is a violation, not a harness crash"""
+    if not hasattr(r, "as_dict") or not hasattr(r, "data"):
+        raise Violation("wrong-result-type", f"operation returned {type(r).__name__} instead of a result with data")
+    return r.data
+
+
 def same_transform(t, d, what):
     """attribute-wise comparison of a wannierberri Transform with a descriptor"""
     if t is None:
@@ -201,17 +208,17 @@ def check_energy(case):
 
     # --- addition / subtraction
     r = a + b
-    eq(r.data, A + B, "add")
+    eq(D(r), A + B, "add")
     _check_meta(r, case, Es, "add", dTR, dInv)
     if r.save_mode != (a.save_mode | b.save_mode):
         raise Violation("add:save_mode", f"{r.save_mode} is not the union of {a.save_mode} and {b.save_mode}")
-    eq((b + a).data, A + B, "add-commutes")
+    eq(D((b + a)), A + B, "add-commutes")
     r = a - b
-    eq(r.data, A - B, "sub")
+    eq(D(r), A - B, "sub")
     _check_meta(r, case, Es, "sub", dTR, dInv)
-    eq(((a + b) + c).data, (A + B) + C, "add3")
-    eq((a + (b + c)).data, A + (B + C), "add3")
-    eq((a - a).data, np.zeros_like(A), "sub-self")
+    eq(D(((a + b) + c)), (A + B) + C, "add3")
+    eq(D((a + (b + c))), A + (B + C), "add3")
+    eq(D((a - a)), np.zeros_like(A), "sub-self")
     unchanged()
     # --- scaling
     for mode in ("mul", "rmul"):
@@ -219,19 +226,19 @@ def check_energy(case):
         if r is None:
             labels.append("scalar-type-rejected-by-code")
         else:
-            eq(r.data, A * s, mode)
+            eq(D(r), A * s, mode)
             _check_meta(r, case, Es, mode, dTR, dInv)
             if r.save_mode != a.save_mode or r.comment != a.comment:
                 raise Violation(mode + ":meta", "scaling changed save_mode or comment")
     if s != 0:
         r = scaled(a, s, "div")
         if r is not None:
-            eq(r.data, A / s, "div")
+            eq(D(r), A / s, "div")
             _check_meta(r, case, Es, "div", dTR, dInv)
     sa, tb = scaled(a, s, "mul"), scaled(b, t, "rmul")
     if sa is not None and tb is not None:
-        eq((sa + tb - c).data, A * s + t * B - C, "linear-combination")
-        eq(scaled(a + b, s, "mul").data, (A + B) * s, "scale-sum")
+        eq(D((sa + tb - c)), A * s + t * B - C, "linear-combination")
+        eq(D(scaled(a + b, s, "mul")), (A + B) * s, "scale-sum")
     unchanged()
     # --- mul_array
     nE = len(Es)
@@ -253,7 +260,7 @@ def check_energy(case):
         exp = np.zeros_like(A)
         for idx in np.ndindex(*shape):
             exp[idx] = A[idx] * arr[tuple(idx[i] for i in used)]
-        eq(r.data, exp, "mul_array")
+        eq(D(r), exp, "mul_array")
         _check_meta(r, case, Es, "mul_array", dTR, dInv)
         labels.append("mul_array-axes=" + mode)
         unchanged()
@@ -263,11 +270,13 @@ def check_energy(case):
                     ("0+a", 0 + a), ("a-Void", a - V)):
         if not isinstance(r, EnergyResult):
             raise Violation("neutral:" + name, f"returned {type(r).__name__}")
-        eq(r.data, A, "neutral:" + name)
+        eq(D(r), A, "neutral:" + name)
         _check_meta(r, case, Es, "neutral:" + name, dTR, dInv)
-    eq((V - a).data, -A, "neutral:Void-a")
-    eq(sum([a, b, c], VoidResult()).data, (A + B) + C, "neutral:sum-from-Void")
-    eq(sum([a, b, c]).data, (A + B) + C, "neutral:sum-from-0")
+    eq(D((V - a)), -A, "neutral:Void-a")
+    for name, r in (("sum-from-Void", sum([a, b, c], VoidResult())), ("sum-from-0", sum([a, b, c]))):
+        if not isinstance(r, EnergyResult):
+            raise Violation("neutral:" + name, f"returned {type(r).__name__}")
+        eq(D(r), (A + B) + C, "neutral:" + name)
     for name, r in (("Void*s", V * s), ("s*Void", s * V), ("Void/s", V / (s if s != 0 else 1)), ("Void+Void", V + V),
                     ("Void.transform", V.transform(build_sym(case["sym"])[0]))):
         if not isinstance(r, VoidResult):
@@ -277,7 +286,7 @@ def check_energy(case):
     if A.dtype == complex or B.dtype != complex:
         a2 = _make_energy(case, A, 0, Es, tTR, tInv)
         a2.add(b)
-        eq(a2.data, A + B, "add-inplace")
+        eq(D(a2), A + B, "add-inplace")
         if not np.array_equal(b.data, B):
             raise Violation("operand-mutated", "add() changed its argument")
     # --- symmetry transformation
@@ -287,13 +296,13 @@ def check_energy(case):
         labels.append("transform-skipped(no transforms set)")
     else:
         ta = a.transform(g)
-        eq(ta.data, pgroup.ref_transform_tensor(A, rank, Of, gtr, dTR, dInv), "transform-vs-explicit", TTOL)
+        eq(D(ta), pgroup.ref_transform_tensor(A, rank, Of, gtr, dTR, dInv), "transform-vs-explicit", TTOL)
         _check_meta(ta, case, Es, "transform", dTR, dInv)
         tb_ = b.transform(g)
-        eq((a + b).transform(g).data, ta.data + tb_.data, "transform-distributes-add", TTOL)
-        eq((a - b).transform(g).data, ta.data - tb_.data, "transform-distributes-sub", TTOL)
+        eq(D((a + b).transform(g)), ta.data + tb_.data, "transform-distributes-add", TTOL)
+        eq(D((a - b).transform(g)), ta.data - tb_.data, "transform-distributes-sub", TTOL)
         if sa is not None:
-            eq(sa.transform(g).data, ta.data * s, "transform-commutes-with-scaling", TTOL)
+            eq(D(sa.transform(g)), ta.data * s, "transform-commutes-with-scaling", TTOL)
         labels += ["sym-TR" if gtr else None, "sym-Inv" if ginv else None, f"sym-n={case['sym']['op']['n']}"]
         unchanged()
     # --- persistence
@@ -318,8 +327,8 @@ def check_energy(case):
                 if l.comment != r.comment:
                     raise Violation("load:comment", f"{l.comment!r} != {r.comment!r}")
                 # the loaded object must be a working result (rank and transforms usable)
-                eq(l.transform(g).data, pgroup.ref_transform_tensor(X, rank, Of, gtr, dTR, dInv), "load:transform", TTOL)
-                eq((l + r).data, X + X, "load:add")
+                eq(D(l.transform(g)), pgroup.ref_transform_tensor(X, rank, Of, gtr, dTR, dInv), "load:transform", TTOL)
+                eq(D((l + r)), X + X, "load:add")
             if a.save_mode == {"bin"}:
                 # the route used by run(): savedata(name, prefix, suffix, i_iter) -> <prefix>-<name>-<suffix>_iter-NNNN.npz
                 a.savedata("q", os.path.join(d, "pre"), "sfx", 7)
@@ -368,6 +377,7 @@ def _make_k(cls, X, rank, tTR, tInv):
 
 def check_kband(case):
     from wannierberri.result.result import VoidResult
+    from wannierberri.result import K__Result
     rank, nb = case["rank"], case["nb"]
     rng = rng_of(case["rs"])
     dTR, dInv = case["tTR"], case["tInv"]
@@ -381,6 +391,8 @@ def check_kband(case):
     labels = [case["cls"], f"rank={rank}", "scalar=" + case["s"]["kind"]]
 
     def exact(r, X, what):
+        if not isinstance(r, K__Result):
+            raise Violation(what + ":type", f"returned {type(r).__name__}, not a k-resolved result")
         d = np.asarray(r.data)
         if d.shape != X.shape or not np.array_equal(d, X):
             raise Violation(what, f"rows are not the operands' rows unchanged and in order (shape {d.shape} vs {X.shape})")
@@ -403,30 +415,28 @@ def check_kband(case):
     exact(a + (b + c), np.vstack([A, B, C]), "concat3")
     exact(b + a, np.vstack([B, A]), "concat-order")
     exact(sum([a, b, c], VoidResult()), np.vstack([A, B, C]), "sum-from-Void")
-    r = VoidResult() + a
-    if r is not a and not np.array_equal(r.data, A):
-        raise Violation("neutral:Void+a", "")
+    exact(VoidResult() + a, A, "neutral:Void+a")
     for x, X in ((a, A), (b, B), (c, C)):
         exact(x, X, "operand-mutated")
     # scaling
-    eq((a * s).data, A * s, "mul")
-    eq((s * a).data, A * s, "rmul")
-    eq(((a + b) * s).data, np.vstack([A, B]) * s, "mul-of-concat")
+    eq(D((a * s)), A * s, "mul")
+    eq(D((s * a)), A * s, "rmul")
+    eq(D(((a + b) * s)), np.vstack([A, B]) * s, "mul-of-concat")
     meta(a * s, "mul", A.shape[0])
     r = a / (s if s != 0 else 1)
     exact(r, A, "div-is-copy")
     meta(r, "div", A.shape[0])
     # element-wise '-' and add()
     r = a - b2
-    eq(r.data, A - B2, "sub")
+    eq(D(r), A - B2, "sub")
     same_transform(r.transformTR, dTR, "sub:transformTR")
     same_transform(r.transformInv, dInv, "sub:transformInv")
     a2 = mk(A)
     a2.add(b2)
-    eq(a2.data, A + B2, "add-inplace")
+    eq(D(a2), A + B2, "add-inplace")
     ab = mk(A) + mk(B)
     ab.add(a + b)
-    eq(ab.data, 2 * np.vstack([A, B]), "add-inplace-blocks")
+    eq(D(ab), 2 * np.vstack([A, B]), "add-inplace-blocks")
     exact(b2, B2, "operand-mutated")
     exact(a, A, "operand-mutated")
     # mul_array over the band axis
@@ -434,18 +444,18 @@ def check_kband(case):
     exp = np.zeros_like(A)
     for idx in np.ndindex(*A.shape):
         exp[idx] = A[idx] * arr[idx[1]]
-    eq(a.mul_array(arr).data, exp, "mul_array")
+    eq(D(a.mul_array(arr)), exp, "mul_array")
     eq((a + b).mul_array(arr, axes=0).data[:A.shape[0]], exp, "mul_array")
     # transform
     g, Of, gtr = build_sym(case["sym"])
     ta, tb_ = a.transform(g), b.transform(g)
-    eq(ta.data, pgroup.ref_transform_tensor(A, rank, Of, gtr, dTR, dInv), "transform-vs-explicit", TTOL)
+    eq(D(ta), pgroup.ref_transform_tensor(A, rank, Of, gtr, dTR, dInv), "transform-vs-explicit", TTOL)
     meta(ta, "transform", A.shape[0])
     r = (a + b).transform(g)
     meta(r, "transform-of-concat", A.shape[0] + B.shape[0])
-    eq(r.data, np.vstack([ta.data, tb_.data]), "transform-distributes-add", TTOL)
-    eq((a * s).transform(g).data, ta.data * s, "transform-commutes-with-scaling", TTOL)
-    eq((a - b2).transform(g).data, ta.data - b2.transform(g).data, "transform-distributes-sub", TTOL)
+    eq(D(r), np.vstack([ta.data, tb_.data]), "transform-distributes-add", TTOL)
+    eq(D((a * s).transform(g)), ta.data * s, "transform-commutes-with-scaling", TTOL)
+    eq(D((a - b2).transform(g)), ta.data - b2.transform(g).data, "transform-distributes-sub", TTOL)
     # right-neutrality of the void result is not provided by K__Result.__add__ (never used by the code): report only
     try:
         r = a + VoidResult()
